@@ -346,7 +346,7 @@ def job_symcoef(job):
                 out['evaluations'] += 1
                 if not ok:
                     rec['config'] = cfg
-                    if len(out['failures']) < 25:
+                    if len(out['failures']) < 400:
                         out['failures'].append(rec)
                 elif len(out['samples']) < 4 and rng.random() < 0.01:
                     rec['config'] = cfg
